@@ -176,7 +176,11 @@ pub fn compare(c: &LzmaCase, e: &Expect, o: &Obs, check_consumed: bool) -> Vec<(
             }
         }
         Exp::Any => {
-            if o.verdict == Verdict::Ok && o.out != e.out {
+            if o.verdict == Verdict::Ok && o.out.len() != e.out.len() && e.class == "size-reached-coder-not-at-rest" {
+                // whether such an input is accepted is open, but a size IS in effect: "success implies exactly that
+                // many bytes were produced"
+                v.push(("output-length".into(), format!("accepted with {} bytes although a size of {} bytes is in effect", o.out.len(), e.out.len())));
+            } else if o.verdict == Verdict::Ok && o.out != e.out {
                 v.push(("exact-output".into(), format!("accepted ({}) but output differs from the decoded symbols", e.class)));
             } else if !is_prefix(&o.out, &e.out) {
                 v.push(("sink-after-error".into(), format!("sink is not a prefix of the decoded symbols ({})", e.class)));
@@ -1187,7 +1191,13 @@ pub fn memlimit_matrix(prop: &str, seed: u64, nprogs: usize, rep: &mut Report) {
         let mut prog: Vec<Sym> = vec![];
         let mut cs = CS::default();
         while cs.out.len() < target_out {
-            let s = if cs.out.is_empty() || rng.gen_bool(0.3) { Sym::Lit { b: rng.gen() } } else {
+            // (the largest legal distance - the whole dictionary - followed by a literal, whose context byte and
+            // matched byte are then read at the far end of a full window: the case "limit = dictionary" must allow)
+            let far = cs.out.len() as u64 >= dict as u64 && rng.gen_bool(0.1);
+            let after_far = matches!(prog.last(), Some(Sym::Match { d, .. }) if *d == dict as u64);
+            let s = if cs.out.is_empty() || after_far || (!far && rng.gen_bool(0.3)) { Sym::Lit { b: rng.gen() } } else if far {
+                Sym::Match { d: dict as u64, n: rng.gen_range(2..=20) }
+            } else {
                 let d = rng.gen_range(1..=(cs.out.len() as u64).min(dict as u64).min(4096));
                 Sym::Match { d, n: rng.gen_range(2..=273) }
             };
